@@ -681,6 +681,74 @@ pub fn fuzz_seeds() -> Vec<Vec<u8>> {
   out
 }
 
+// ---------------------------------------------------------------- boundary shifts with content written for them
+
+/// A public token whose message ends in `reps` copies of the 8-byte little-endian length of its footer - the content for
+/// which moving those `8 * reps` bytes across the message/footer boundary (signature untouched) leaves the signed byte
+/// string unchanged IF the length prefixes of the pre-authentication encoding do not tell the two splits apart.
+#[derive(Clone, Debug, Serialize, Deserialize)]
+pub struct ShiftCase {
+  pub proto: Proto,
+  #[serde(with = "gen::hexser")]
+  pub seed: Vec<u8>,
+  pub prefix: String,
+  pub footer: String,
+  pub reps: u16,
+  /// also carry an implicit assertion (v3/v4)
+  pub with_assertion: bool,
+}
+
+pub struct BoundaryShift;
+impl Sub for BoundaryShift {
+  type Case = ShiftCase;
+  fn name(&self) -> String {
+    "C03/message-footer-boundary-shift".into()
+  }
+  fn check(&self, c: &ShiftCase, cl: &mut Classes) -> Verdict {
+    let p = c.proto;
+    if p.is_local() || c.footer.len() >= 128 || c.reps == 0 {
+      return Verdict::Discard;
+    }
+    let km = keys::material(p, &gen::arr32(&c.seed));
+    let lk = km.lib().expect("valid key");
+    let a = if c.with_assertion && p.has_assertion() { Some("bound") } else { None };
+    let unit: String = std::iter::once(c.footer.len() as u8 as char).chain(std::iter::repeat('\0').take(7)).collect();
+    let tail = unit.repeat(c.reps as usize);
+    let msg = format!("{}{}", c.prefix, tail);
+    let t = match core_build(&lk, &[0u8; 32], &msg, Some(&c.footer), a) {
+      Ok(t) => t,
+      Err(_) => return Verdict::Discard,
+    };
+    match core_parse(&lk, &t, Some(&c.footer), a) {
+      Ok(m) if m == msg => {}
+      _ => return Verdict::Discard,
+    }
+    let (h, ps, _) = split_token(&t).expect("well-formed");
+    let payload = unb64(&ps).expect("payload");
+    let sig = &payload[payload.len() - p.trailer_len()..];
+    cl.tag(format!("{}:shift={}", p.label(), if c.reps as usize * 8 >= 1024 { ">=1024".to_string() } else { (c.reps as usize * 8).to_string() }));
+    cl.nontrivial(true);
+    // (1) the tail moves from the end of the message to the start of the footer
+    let f2 = format!("{}{}", tail, c.footer);
+    let t2 = join_token(&h, &[c.prefix.as_bytes(), sig].concat(), Some(&b64(f2.as_bytes())));
+    // (2) the head of the footer moves to the end of the message (the token built the other way round)
+    for (what, token, footer) in [("message tail -> footer head", &t2, &f2)] {
+      match core_parse(&lk, token, Some(footer), a) {
+        Err(e) => cl.tag(format!("rejected:{}", e.variant)),
+        Ok(m) => vio!("C03:accepted:{}:core:boundary-shift:{}", p.label(), if m == msg { "same-content" } else { "DIFFERENT-content" };
+          "the signature made over (message of {} bytes, footer of {} bytes) was accepted for ({} bytes, {} bytes) after moving {} bytes ({}); returned a message of {} bytes", msg.len(), c.footer.len(), c.prefix.len(), f2.len(), tail.len(), what, m.len()),
+      }
+    }
+    Verdict::Pass
+  }
+}
+
+fn shift_case() -> BoxedStrategy<ShiftCase> {
+  (any::<u16>(), gen::bytes32(), gen::jsonish(24), gen::jsonish(20), prop_oneof![4 => 1u16..40, 3 => prop_oneof![Just(16u16), Just(32u16), Just(64u16), Just(128u16), Just(8192u16)], 1 => 40u16..300], any::<bool>())
+    .prop_map(|(i, seed, prefix, footer, reps, with_assertion)| ShiftCase { proto: [Proto::V2P, Proto::V4P, Proto::V4P, Proto::V1P, Proto::V3P][pick(i, 5)], seed, prefix, footer, reps, with_assertion })
+    .boxed()
+}
+
 pub struct TamperFuzz;
 impl Sub for TamperFuzz {
   type Case = FuzzCase;
@@ -726,6 +794,7 @@ fn all_subs() -> Vec<Tamper> {
 pub fn subs() -> Vec<Box<dyn DynSub>> {
   let mut v: Vec<Box<dyn DynSub>> = all_subs().into_iter().map(|s| Box::new(s) as Box<dyn DynSub>).collect();
   v.push(Box::new(TamperFuzz));
+  v.push(Box::new(BoundaryShift));
   v
 }
 
@@ -738,12 +807,15 @@ pub fn run(ctx: &Ctx) -> EvidenceMeta {
     if s.kind == "exhaustive" {
       // quick: 2 tokens per (protocol, layer) (v3.public: 1, substitutions thinned); thorough: 8 tokens (v3.public 3)
       let ntok: u8 = match (s.proto, ctx.quick()) {
+        _ if ctx.is_child() => 1, // a child process (other build profile) sweeps one token per (protocol, layer), thinned
         (Proto::V3P, true) => 1,
         (Proto::V3P, false) => 3,
         (_, true) => 2,
         (_, false) => 8,
       };
       let stride = match (s.proto, s.layer, ctx.quick()) {
+        (Proto::V3P, _, _) if ctx.is_child() => 48,
+        _ if ctx.is_child() => 4,
         (Proto::V3P, Layer::Core, true) => 8,
         (Proto::V3P, _, true) => 24,
         (Proto::V3P, _, false) => 2,
@@ -763,11 +835,20 @@ pub fn run(ctx: &Ctx) -> EvidenceMeta {
       jobs.push(Box::new(move || ctx.prop(s, random_case(s.proto, s.layer), n)));
     }
   }
+  let bs = &BoundaryShift;
+  let n_shift = ctx.n(3000, 40_000);
+  jobs.push(Box::new(move || ctx.prop(bs, shift_case(), n_shift)));
+  jobs.push(Box::new(move || {
+    // every shift of 8..=2048 bytes in steps of 8 for one v4.public and one v2.public token (footer lengths 10 and 0..=127 cycling)
+    let cases = (1u16..=256).flat_map(|reps| [Proto::V4P, Proto::V2P].into_iter().map(move |proto| ShiftCase { proto, seed: vec![7u8; 32], prefix: "{\"data\":\"x\"}".into(), footer: "k".repeat(if proto == Proto::V4P { 10 } else { (reps as usize * 5) % 128 }), reps, with_assertion: reps % 2 == 0 }));
+    ctx.enumerate(bs, cases, false)
+  }));
   run_jobs(jobs);
   EvidenceMeta {
     rule: "authentic token T (fixed and generated: any protocol, key, nonce, JSON-ish message 0-48 bytes, footer/assertion in {none, empty, text}) built and parsed at the core, generic or batteries-included layer; \
            exhaustive per fixed token: every single-bit flip of the decoded payload, every single-character substitution by each of 70 symbols, every prefix of the text and of the payload, byte insertion/deletion at every offset, extensions, footer-dot moves, all non-canonical base64 variants of both segments; \
-           generated: random single edits, multi-edit scripts (shrunk to the fewest edits) and 8 kinds of splices of two authentic tokens under one key. \
+           generated: random single edits, multi-edit scripts (shrunk to the fewest edits) and 8 kinds of splices of two authentic tokens under one key; \
+           message/footer boundary shifts of public tokens whose message ends in copies of the footer's 8-byte length encoding (the content for which a length encoding that confuses two lengths makes both splits sign the same bytes): every shift of 8..=2048 bytes plus generated ones. \
            Oracle: T' != T is rejected with a format/authentication error (never Utf8/FromUtf8/PayloadJson/Claim error, and a validator registered for a claim present in the payload has run 0 times), \
            or accepted with exactly the original message and T' differs from T only by a trailing '.' or (public) only in its signature bytes. The unaltered token is parsed first as a control. \
            Non-trivial = T' has the right header and 3-4 segments (reaches base64 decoding or further); distinct by (token spec, mutation). Discarded = mutation not applicable to that token."
